@@ -53,7 +53,11 @@ type c11Exec struct {
 	rec   *vu.Recorder
 	cs    *c11Case
 	tasks map[string]int // task reason -> 1-based index
+
+	unattributed int
 }
+
+var c11Unattributed int
 
 func (e *c11Exec) IsPodEvicted(pod *corev1.Pod) bool {
 	a := e.cs.Pods[pod.Name].Already
@@ -64,13 +68,18 @@ func (e *c11Exec) IsPodEvicted(pod *corev1.Pod) bool {
 }
 
 func (e *c11Exec) Evict(pod *corev1.Pod, node *corev1.Node, releaseReason string, message string) bool {
-	// the loop passes "<task reason>, kill pod: <name>" as message
-	reason := message
-	if i := strings.Index(message, ", kill pod: "); i >= 0 {
-		reason = message[:i]
+	// the loop names the task it acts for in the message ("<task reason>, kill pod: <name>")
+	ti := 0
+	for reason, i := range e.tasks {
+		if strings.Contains(message, reason) {
+			ti = i
+		}
+	}
+	if ti == 0 {
+		e.unattributed++ // cannot tell the task: a harness limitation, reported as machinery trouble, never judged
 	}
 	ok := !e.cs.Pods[pod.Name].Fails
-	e.rec.Emit(vu.Ev{"op": "evict", "pod": pod.Name, "task": e.tasks[reason], "ok": ok})
+	e.rec.Emit(vu.Ev{"op": "evict", "pod": pod.Name, "task": ti, "ok": ok})
 	return ok
 }
 
@@ -130,7 +139,7 @@ func c11Run(rec *vu.Recorder, cs *c11Case) {
 	ex := &c11Exec{rec: rec, cs: cs, tasks: map[string]int{}}
 	var tasks []*EvictTaskInfo
 	for i, t := range cs.Tasks {
-		reason := fmt.Sprintf("c11-task-%d", i+1)
+		reason := fmt.Sprintf("c11-task-%d;", i+1)
 		ex.tasks[reason] = i + 1
 		tbl := t.C
 		task := &EvictTaskInfo{
@@ -154,6 +163,7 @@ func c11Run(rec *vu.Recorder, cs *c11Case) {
 		return
 	}
 	rec.Emit(vu.Ev{"op": "ret", "released": c11Released(released), "newly": newly})
+	c11Unattributed += ex.unattributed
 }
 
 const (
@@ -412,6 +422,9 @@ func TestVerifC11(t *testing.T) {
 	rng := vu.Rand(11)
 	for i := 0; i < n; i++ {
 		c11Run(rec, c11Random(rng))
+	}
+	if c11Unattributed > 0 {
+		t.Fatalf("C11 loop: %d Evict calls could not be attributed to a task (message format changed?)", c11Unattributed)
 	}
 	t.Logf("C11 loop: %d enumerated + %d random cases, %d events", enum, n, rec.Events())
 }
